@@ -80,8 +80,8 @@ def rule_must_pass(F, ctx, prop):
             ctx.violation("%s:R-AUTH-3:unauthorized-path:%s" % (EP, (s.resolved or s.static).split("::")[-1]), "execute_program reaches %s on a path that does not pass the per-statement authorization" % (s.resolved or s.static).split("::")[-1], s.where())
     # arguments: identity <- refresh_user_role-derived (effective_auth), program <- program param,
     # targets <- explicit knowledge_graph param AND the session's graph AND the engine's current graph (fallback)
-    prog = f.local_named("program")
-    kgp = f.local_named("knowledge_graph")
+    prog = f.need_local("program")
+    kgp = f.need_local("knowledge_graph")
     ident_src = [c for c in f.normal_calls() if c.resolved == H + "::refresh_user_role"]
     d_prog = f.derive({prog}, through_calls=True) if prog is not None else set()
     d_kg = f.derive({kgp}, through_calls=True) if kgp is not None else set()
@@ -151,7 +151,7 @@ def rule_same_unit(F, ctx):
     if not ok:
         ctx.violation(APL + ":R-AUTH-2:segmentation-differs", "authorization and executor no longer split the program into statements the same way (%s vs %s): a statement can be executed that was never authorized" % (sa, se), a.where())
     # the program the authorization segments is its own `program` parameter
-    p = a.local_named("program")
+    p = a.need_local("program")
     sc = [c for c in a.normal_calls() if c.resolved == SEG[0]]
     ok = p is not None and sc and all(op_local(c.args[0]) in a.derive({p}, through_calls=False) for c in sc)
     ctx.site("authorization segments its program parameter", a.where(), ok=bool(ok))
@@ -223,8 +223,8 @@ def rule_kg_tracking(F, ctx):
     ps = [c for c in f.normal_calls() if c.resolved == PARSE and c.bb in loops]
     if not aos or not ps:
         raise CheckError("authorize_program_lines: anchors missing")
-    init = f.local_named("initial_targets")
-    tg = f.local_named("targets")
+    init = f.need_local("initial_targets")
+    tg = f.need_local("targets")
     if init is None or tg is None:
         raise CheckError("authorize_program_lines: locals initial_targets/targets not found")
     from_stmt = f.derive({ps[0].dst["l"]}, through_calls=True, stop_calls=[AOS])
@@ -275,7 +275,7 @@ def rule_role_checks(F, ctx):
     """authorize_one_statement: global-role check and per-KG role check on every non-admin success path."""
     f = F.fn(AOS)
     ctx.rule("R-AUTH-6", "authorize_one_statement: global role, then per-KG role for the statement's target graph, on every non-admin success path", floor=3)
-    ident = f.local_named("identity")
+    ident = f.need_local("identity")
     gs = [c for c in f.normal_calls() if c.resolved == "auth::authorize_statement"]
     ks = [c for c in f.normal_calls() if c.resolved == "auth::authorize_kg_operation"]
     gr = [c for c in f.normal_calls() if c.resolved == H + "::get_kg_role_for_user"]
@@ -300,7 +300,7 @@ def rule_role_checks(F, ctx):
                 ctx.angelic_guard("identity.role == Admin (admins are implicit owners of every graph)", f.where(br[0]))
     # target_kg == None (global commands: kg list/show/help/status/quit/create)
     tnone = []
-    tk = f.local_named("target_kg")
+    tk = f.need_local("target_kg")
     for (bb, adt, pl, mm, other) in f.enum_switches("std::option::Option"):
         if "Some" in mm and tk is not None and pl.get("l") == tk and not pl.get("p"):
             tnone.append(mm.get("None", other))
@@ -340,8 +340,8 @@ def rule_internal_guard(F, ctx):
     cmps = internal_comparisons(f)
     rets, eb = f.success_returns()
     kinds = {"explicit": False, "current": False, "target": False}
-    cur = f.local_named("current_kg")
-    tk = f.local_named("target_kg")
+    cur = f.need_local("current_kg")
+    tk = f.need_local("target_kg")
     for (c, other) in cmps:
         br = common.branch_on_result(f, c)
         if not br:
